@@ -557,23 +557,33 @@ Proof.
 Qed.
 
 (* the same for a property of the whole accumulator, which may also use that the inserted pair passed can_add and was absent *)
-Lemma join_inv_gen : forall (P : nat -> nat -> Prop) (Q : mset * mset * bool -> Prop) ca rel1 rel2_rev (acc : mset * mset * bool),
-  (forall w x y, P w x -> P x y -> P w y) ->
-  mall P rel1 -> mall (flip2 P) rel2_rev ->
-  (forall tg tr ch w y, Q (tg, tr, ch) -> P w y -> ca w y = true -> mhas w y tg = false -> Q (mins w y tg, mins y w tr, true)) ->
+Lemma join_inv_gen3 : forall (P1 P2 P3 : nat -> nat -> Prop) (Q : mset * mset * bool -> Prop) ca rel1 rel2_rev (acc : mset * mset * bool),
+  (forall w x y, P2 w x -> P1 x y -> P3 w y) ->
+  mall P1 rel1 -> (forall x xrev w, aget x rel2_rev = Some xrev -> In w xrev -> P2 w x) ->
+  (forall tg tr ch w y, Q (tg, tr, ch) -> P3 w y -> ca w y = true -> mhas w y tg = false -> Q (mins w y tg, mins y w tr, true)) ->
   Q acc -> Q (join ca rel1 rel2_rev acc).
 Proof.
-  intros P Q ca rel1 rel2_rev acc Ht H1 H2 C Hq. unfold join.
+  intros P1 P2 P3 Q ca rel1 rel2_rev acc Ht H1 H2 C Hq. unfold join.
   apply (fold_left_inv _ _ Q); [exact Hq|].
   intros a1 [x xset] Hin Hq1. cbn [fst snd] in *.
   destruct (aget x rel2_rev) as [xrev|] eqn:Hx; [|exact Hq1].
-  apply aget_in in Hx.
   apply (fold_left_inv _ _ Q); [exact Hq1|].
   intros a2 w Hw Hq2.
   apply (fold_left_inv _ _ Q); [exact Hq2|].
   intros [[tg3 tr3] ch3] y Hy Hq3. unfold join_inner.
   destruct (ca w y) eqn:Hca; [|exact Hq3]. destruct (mhas w y tg3) eqn:Hmh; [exact Hq3|].
   apply (C tg3 tr3 ch3 w y Hq3); try assumption. apply (Ht w x y); [apply (H2 x xrev w Hx Hw)|apply (H1 x xset y Hin Hy)].
+Qed.
+
+Lemma join_inv_gen : forall (P : nat -> nat -> Prop) (Q : mset * mset * bool -> Prop) ca rel1 rel2_rev (acc : mset * mset * bool),
+  (forall w x y, P w x -> P x y -> P w y) ->
+  mall P rel1 -> mall (flip2 P) rel2_rev ->
+  (forall tg tr ch w y, Q (tg, tr, ch) -> P w y -> ca w y = true -> mhas w y tg = false -> Q (mins w y tg, mins y w tr, true)) ->
+  Q acc -> Q (join ca rel1 rel2_rev acc).
+Proof.
+  intros P Q ca rel1 rel2_rev acc Ht H1 H2 C Hq.
+  apply (join_inv_gen3 P P P Q ca rel1 rel2_rev acc Ht H1); [|exact C|exact Hq].
+  intros x xrev w Hx Hw. apply (H2 x xrev w (aget_in _ _ _ _ Hx) Hw).
 Qed.
 
 Lemma smem_sadd : forall b y s, smem b (sadd y s) = Nat.eqb b y || smem b s.
@@ -1196,3 +1206,254 @@ Proof.
     + intros s Hs. inversion Hs; subst. exact Hm.
   - intros E st H. apply exact_sound, total_exact; exact H.
 Qed.
+
+(* ================================================================== Part 6: the inner loop of the merge closes total + new transitively
+   (class level, independent of the union-find structure: only the connection maps and the class pairs of `new` matter) *)
+
+Lemma fold_left_each : forall A B (R : B -> A -> Prop) (f : A -> B -> A) l a,
+  (forall a b b', R b' a -> R b' (f a b)) -> (forall a b, R b (f a b)) -> forall b, In b l -> R b (fold_left f l a).
+Proof.
+  induction l as [|h l IH]; intros a Hp He b Hin; [destruct Hin|]. cbn [fold_left]. destruct Hin as [->|Hin].
+  - apply (fold_left_inv _ _ (R b)); [apply He|]. intros a' b' _ H; apply Hp; exact H.
+  - apply IH; assumption.
+Qed.
+
+Section JoinComplete.
+  Variable ca : nat -> nat -> bool.
+
+  Definition jH (acc : mset * mset * bool) (w y : nat) : Prop := mhas w y (fst (fst acc)) = true \/ ca w y = false.
+
+  Lemma join_inner_mono : forall w acc y a b, mhas a b (fst (fst acc)) = true -> mhas a b (fst (fst (join_inner ca w acc y))) = true.
+  Proof.
+    intros w [[tg tr] ch] y a b H. unfold join_inner. cbn [fst snd] in *. destruct (ca w y); [|exact H].
+    destruct (mhas w y tg); [exact H|]. cbn [fst]. rewrite mhas_mins, H. apply orb_true_r.
+  Qed.
+
+  Lemma join_inner_est : forall w acc y, jH (join_inner ca w acc y) w y.
+  Proof.
+    intros w [[tg tr] ch] y. unfold jH, join_inner. destruct (ca w y) eqn:Hc; [|right; reflexivity].
+    destruct (mhas w y tg) eqn:Hm; [left; exact Hm|]. left. cbn [fst]. rewrite mhas_mins, !Nat.eqb_refl. reflexivity.
+  Qed.
+
+  Lemma jH_inner : forall w acc y a b, jH acc a b -> jH (join_inner ca w acc y) a b.
+  Proof. intros w acc y a b [H|H]; [left; apply join_inner_mono; exact H|right; exact H]. Qed.
+
+  Lemma inner_fold_mono : forall w xset acc a b, mhas a b (fst (fst acc)) = true -> mhas a b (fst (fst (fold_left (join_inner ca w) xset acc))) = true.
+  Proof. intros w xset acc a b H. apply (fold_left_inv _ _ (fun acc => mhas a b (fst (fst acc)) = true)); [exact H|]. intros a0 y _ H0. apply join_inner_mono; exact H0. Qed.
+
+  Lemma inner_fold_est : forall w xset acc y, In y xset -> jH (fold_left (join_inner ca w) xset acc) w y.
+  Proof.
+    intros w xset acc y Hy. apply (fold_left_each _ _ (fun y acc => jH acc w y)); [| |exact Hy].
+    - intros a0 b b' H. apply jH_inner; exact H.
+    - intros a0 b. apply join_inner_est.
+  Qed.
+
+  Definition mid_fold (xset : list nat) (acc : mset * mset * bool) (xrev : list nat) : mset * mset * bool :=
+    fold_left (fun acc w => fold_left (join_inner ca w) xset acc) xrev acc.
+
+  Lemma mid_fold_mono : forall xset xrev acc a b, mhas a b (fst (fst acc)) = true -> mhas a b (fst (fst (mid_fold xset acc xrev))) = true.
+  Proof.
+    intros xset xrev acc a b H. unfold mid_fold. apply (fold_left_inv _ _ (fun acc => mhas a b (fst (fst acc)) = true)); [exact H|].
+    intros a0 w _ H0. apply inner_fold_mono; exact H0.
+  Qed.
+
+  Lemma mid_fold_est : forall xset xrev acc w y, In w xrev -> In y xset -> jH (mid_fold xset acc xrev) w y.
+  Proof.
+    intros xset xrev acc w y Hw Hy. unfold mid_fold.
+    apply (fold_left_each _ _ (fun w acc => forall y, In y xset -> jH acc w y)); [| |exact Hw|exact Hy].
+    - intros a0 b b' H y0 Hy0. destruct (H y0 Hy0) as [H1|H1]; [left; apply inner_fold_mono; exact H1|right; exact H1].
+    - intros a0 b y0 Hy0. apply inner_fold_est; exact Hy0.
+  Qed.
+
+  Lemma join_unfold : forall rel1 rel2_rev acc,
+    join ca rel1 rel2_rev acc =
+    fold_left (fun acc kv => match aget (fst kv) rel2_rev with None => acc | Some xrev => mid_fold (snd kv) acc xrev end) rel1 acc.
+  Proof. reflexivity. Qed.
+
+  Lemma join_mono : forall rel1 rel2_rev acc a b, mhas a b (fst (fst acc)) = true -> mhas a b (fst (fst (join ca rel1 rel2_rev acc))) = true.
+  Proof.
+    intros rel1 rel2_rev acc a b H. rewrite join_unfold. apply (fold_left_inv _ _ (fun acc => mhas a b (fst (fst acc)) = true)); [exact H|].
+    intros a0 kv _ H0. destruct (aget (fst kv) rel2_rev); [apply mid_fold_mono; exact H0|exact H0].
+  Qed.
+
+  (* every composition of a pair of rel2 with a pair of rel1 is in the target afterwards, unless can_add rejects it *)
+  Lemma join_complete : forall rel1 rel2_rev acc x xset xrev w y,
+    In (x, xset) rel1 -> aget x rel2_rev = Some xrev -> In w xrev -> In y xset ->
+    jH (join ca rel1 rel2_rev acc) w y.
+  Proof.
+    intros rel1 rel2_rev acc x xset xrev w y Hin Hx Hw Hy. rewrite join_unfold.
+    pose proof (fold_left_each _ _ (fun kv acc => forall xrev w y, aget (fst kv) rel2_rev = Some xrev -> In w xrev -> In y (snd kv) -> jH acc w y)
+             (fun acc kv => match aget (fst kv) rel2_rev with None => acc | Some xrev => mid_fold (snd kv) acc xrev end) rel1 acc) as FE.
+    cbv beta in FE. apply (fun Hp He => FE Hp He (x, xset) Hin xrev w y Hx Hw Hy).
+    - intros a0 kv kv' H xr w0 y0 Hk Hw0 Hy0. destruct (H xr w0 y0 Hk Hw0 Hy0) as [H1|H1]; [left|right; exact H1].
+      destruct (aget (fst kv) rel2_rev); [apply mid_fold_mono; exact H1|exact H1].
+    - intros a0 kv xr w0 y0 Hk Hw0 Hy0. rewrite Hk. apply mid_fold_est; assumption.
+  Qed.
+End JoinComplete.
+
+Lemma mhas_cons : forall a b k s (m : mset), mhas a b ((k, s) :: m) = if Nat.eqb a k then smem b s else mhas a b m.
+Proof. intros a b k s m. unfold mhas, eget. cbn [aget]. destruct (Nat.eqb a k); reflexivity. Qed.
+
+Lemma mhas_absent : forall a b (m : mset), ~ In a (map fst m) -> mhas a b m = false.
+Proof.
+  intros a b m H. unfold mhas, eget. destruct (aget a m) as [s|] eqn:Hs; [|reflexivity].
+  exfalso. apply H. apply in_map_iff. exists (a, s). split; [reflexivity|apply aget_in; exact Hs].
+Qed.
+
+Lemma mhas_mmove : forall from to a b, NoDup (map fst from) -> mhas a b (mmove from to) = mhas a b to || mhas a b from.
+Proof.
+  induction from as [|[k s] from IH]; intros to a b Hnd.
+  - unfold mmove. cbn [fold_left]. unfold mhas at 3. cbn. rewrite orb_false_r. reflexivity.
+  - cbn [map fst] in Hnd. inversion Hnd as [|? ? Hk Hnd']; subst. unfold mmove in *. cbn [fold_left fst snd].
+    rewrite (IH _ a b Hnd'). rewrite mhas_cons. unfold mhas at 1. rewrite eget_aset.
+    destruct (Nat.eqb_spec a k) as [->|Hne].
+    + rewrite (mhas_absent k b from Hk). rewrite orb_false_r. unfold smem. rewrite existsb_app. reflexivity.
+    + reflexivity.
+Qed.
+
+Lemma mhas_binding : forall a b (m : mset), mhas a b m = true -> exists s, aget a m = Some s /\ In b s.
+Proof.
+  intros a b m H. unfold mhas, eget in H. destruct (aget a m) as [s|]; [|discriminate]. exists s. split; [reflexivity|apply smem_in; exact H].
+Qed.
+
+Lemma binding_mhas : forall a s b (m : mset), NoDup (map fst m) -> In (a, s) m -> In b s -> mhas a b m = true.
+Proof.
+  intros a s b m Hnd Hin Hb. unfold mhas, eget. rewrite (in_aget _ _ _ _ Hnd Hin). apply smem_in; exact Hb.
+Qed.
+
+Lemma nodup_mins : forall w y (m : mset), NoDup (map fst m) -> NoDup (map fst (mins w y m)).
+Proof. intros w y m H. unfold mins. apply nodup_keys_aset; exact H. Qed.
+
+Section LoopClosure.
+  Variables conn rev ncm ncrm : mset.          (* t_conn total, t_rev total, new_classes_map, new_classes_rev_map *)
+  Definition Rm (m : mset) (a b : nat) : Prop := mhas a b m = true.
+  Notation T := (Rm conn).
+  Notation N := (Rm ncm).
+  Hypothesis T_trans : forall a b c, T a b -> T b c -> a <> c -> T a c.
+  Hypothesis T_conv : forall a b, a <> b -> (T a b <-> Rm rev b a).
+  Hypothesis conn_nd : NoDup (map fst conn).
+  Hypothesis ncm_nd : NoDup (map fst ncm).
+  Hypothesis ncrm_nd : NoDup (map fst ncrm).
+  Hypothesis N_conv : forall a b, mhas a b ncm = mhas b a ncrm.
+
+  (* the class pairs the loop may produce: a pair of new, extended by total on either side or by new on the right *)
+  Inductive der : nat -> nat -> Prop :=
+  | der_n a b : N a b -> der a b
+  | der_tl c a b : T c a -> der a b -> der c b
+  | der_tr a b c : der a b -> T b c -> der a c
+  | der_nn a b c : der a b -> N b c -> der a c.
+
+  Definition Kn (dd dt : mset) (x y : nat) : Prop := Rm dd x y \/ Rm dt x y \/ T x y.
+
+  Record linv (dd ddr dt dtr : mset) : Prop := mkLinv {
+    l_nd : NoDup (map fst dd) /\ NoDup (map fst ddr);
+    l_cv1 : forall a b, mhas a b dd = mhas b a ddr;
+    l_cv2 : forall a b, mhas a b dt = mhas b a dtr;
+    l_sub : forall a b, N a b -> Rm dd a b \/ Rm dt a b;
+    l_der : forall a b, Rm dd a b \/ Rm dt a b -> der a b;
+    l_sat : forall a b, Rm dt a b ->
+            (forall c, T c a -> Kn dd dt c b) /\ (forall c, T b c -> Kn dd dt a c) /\ (forall c, N b c -> Kn dd dt a c)
+  }.
+
+  Lemma linv_init : linv ncm ncrm [] [].
+  Proof.
+    constructor.
+    - split; assumption.
+    - exact N_conv.
+    - reflexivity.
+    - intros a b H; left; exact H.
+    - intros a b [H|H]; [apply der_n; exact H|discriminate].
+    - intros a b H; discriminate.
+  Qed.
+
+  (* the properties of the accumulator of the three joins of one round *)
+  Definition jacc (acc : mset * mset * bool) : Prop :=
+    (NoDup (map fst (fst (fst acc))) /\ NoDup (map fst (snd (fst acc)))) /\
+    (forall a b, mhas a b (fst (fst acc)) = mhas b a (snd (fst acc))) /\
+    (forall a b, mhas a b (fst (fst acc)) = true -> der a b) /\
+    (snd acc = false -> fst (fst acc) = [] /\ snd (fst acc) = []).
+
+  Lemma jacc_step : forall ca tg tr ch w y, jacc (tg, tr, ch) -> der w y -> ca w y = true -> mhas w y tg = false -> jacc (mins w y tg, mins y w tr, true).
+  Proof.
+    intros ca tg tr ch w y [[N1 N2] [Hcv [Hd _]]] Hwy _ _. unfold jacc. cbn [fst snd] in *.
+    split; [split; apply nodup_mins; assumption|]. split; [|split; [|discriminate]].
+    - intros a b. rewrite !mhas_mins, Hcv. rewrite (andb_comm (Nat.eqb a w)). reflexivity.
+    - intros a b H. rewrite mhas_mins in H. apply orb_true_iff in H. destruct H as [H|H]; [|apply Hd; exact H].
+      apply andb_true_iff in H. destruct H as [Ha Hb]. apply Nat.eqb_eq in Ha, Hb. subst. exact Hwy.
+  Qed.
+
+  Lemma jacc_init : jacc ([], [], false).
+  Proof.
+    unfold jacc. cbn [fst snd]. split; [split; constructor|]. split; [reflexivity|]. split; [intros a b H; discriminate|auto].
+  Qed.
+
+  Lemma round_ok : forall dd ddr dt dtr, linv dd ddr dt dtr ->
+    let ca := fun x y => negb (mhas x y dd) && negb (mhas x y dt) && negb (mhas x y conn) in
+    let j3 := join ca ncm ddr (join ca conn ddr (join ca dd rev ([], [], false))) in
+    linv (fst (fst j3)) (snd (fst j3)) (mmove dd dt) (mmove ddr dtr) /\
+    (snd j3 = false -> fst (fst j3) = []).
+  Proof.
+    intros dd ddr dt dtr L ca j3. destruct L as [[Nd Ndr] Cv1 Cv2 Sub Der Sat].
+    set (j1 := join ca dd rev ([], [], false)) in *. set (j2 := join ca conn ddr j1) in *.
+    assert (Hdd : forall x s y, In (x, s) dd -> In y s -> der x y).
+    { intros x s y Hin Hy. apply Der. left. eapply binding_mhas; eassumption. }
+    assert (Hddr : forall x xrev w, aget x ddr = Some xrev -> In w xrev -> der w x).
+    { intros x xrev w Hx Hw. apply Der. left. unfold Rm. rewrite Cv1. unfold mhas, eget. rewrite Hx. apply smem_in; exact Hw. }
+    assert (J1 : jacc j1).
+    { apply (join_inv_gen3 (fun x y => der x y) (fun w x => w = x \/ T w x) der jacc ca dd rev).
+      - intros w x y [->|Ht] Hxy; [exact Hxy|eapply der_tl; eassumption].
+      - intros x s y Hin Hy. eapply Hdd; eassumption.
+      - intros x xrev w Hx Hw. destruct (Nat.eq_dec w x) as [->|Hne]; [left; reflexivity|right].
+        apply (T_conv w x Hne). unfold Rm, mhas, eget. rewrite Hx. apply smem_in; exact Hw.
+      - apply jacc_step.
+      - apply jacc_init. }
+    assert (J2 : jacc j2).
+    { apply (join_inv_gen3 (fun x y => T x y) (fun w x => der w x) der jacc ca conn ddr).
+      - intros w x y Hwx Hxy. eapply der_tr; eassumption.
+      - intros x s y Hin Hy. eapply binding_mhas; eassumption.
+      - exact Hddr.
+      - apply jacc_step.
+      - exact J1. }
+    assert (J3 : jacc j3).
+    { apply (join_inv_gen3 (fun x y => N x y) (fun w x => der w x) der jacc ca ncm ddr).
+      - intros w x y Hwx Hxy. eapply der_nn; eassumption.
+      - intros x s y Hin Hy. eapply binding_mhas; eassumption.
+      - exact Hddr.
+      - apply jacc_step.
+      - exact J2. }
+    destruct J3 as [[Nn Nnr] [Cvn [Dern Hch]]].
+    assert (Hmv : forall a b, mhas a b (mmove dd dt) = mhas a b dt || mhas a b dd) by (intros; apply mhas_mmove; exact Nd).
+    assert (Hmvr : forall a b, mhas a b (mmove ddr dtr) = mhas a b dtr || mhas a b ddr) by (intros; apply mhas_mmove; exact Ndr).
+    (* what can_add = false means *)
+    assert (Hca : forall x y, ca x y = false -> Rm dd x y \/ Rm dt x y \/ T x y).
+    { intros x y H. unfold ca in H. unfold Rm. destruct (mhas x y dd); [now left|]. destruct (mhas x y dt); [right; now left|].
+      destruct (mhas x y conn); [right; now right|discriminate]. }
+    assert (Hup : forall x y, Kn dd dt x y -> Kn (fst (fst j3)) (mmove dd dt) x y).
+    { intros x y [H|[H|H]]; unfold Kn, Rm in *; [right; left; rewrite Hmv, H; apply orb_true_r|right; left; rewrite Hmv, H; reflexivity|right; right; exact H]. }
+    assert (Hj : forall j w y, (j = j1 \/ j = j2 \/ j = j3) -> jH ca j w y -> Kn (fst (fst j3)) (mmove dd dt) w y).
+    { intros j w y Hjj [H|H]; [|apply Hup, Hca; exact H]. left. unfold Rm.
+      destruct Hjj as [->|[->| ->]]; [apply join_mono, join_mono; exact H|apply join_mono; exact H|exact H]. }
+    split; [|intros Hf; apply Hch; exact Hf].
+    constructor.
+    - split; assumption.
+    - exact Cvn.
+    - intros a b. rewrite Hmv, Hmvr, Cv1, Cv2. reflexivity.
+    - intros a b Hn. right. unfold Rm. rewrite Hmv. destruct (Sub a b Hn) as [H|H]; unfold Rm in H; rewrite H; [apply orb_true_r|reflexivity].
+    - intros a b [H|H]; [apply Dern; exact H|]. unfold Rm in H. rewrite Hmv in H. apply orb_true_iff in H. apply Der. destruct H; [right|left]; assumption.
+    - intros a b H. unfold Rm in H. rewrite Hmv in H. apply orb_true_iff in H. destruct H as [H|H].
+      + destruct (Sat a b H) as [S1 [S2 S3]]. split; [|split]; intros c Hc; apply Hup; auto.
+      + (* (a,b) was in delta_delta: the three joins of this round composed it with total and new *)
+        destruct (mhas_binding _ _ _ H) as [s [Hs Hb]]. split; [|split]; intros c Hc.
+        * destruct (Nat.eq_dec c a) as [->|Hne]; [apply Hup; left; exact H|].
+          apply (T_conv c a Hne) in Hc. destruct (mhas_binding _ _ _ Hc) as [xrev [Hx Hw]].
+          apply (Hj j1 c b (or_introl eq_refl)). apply (join_complete ca dd rev _ a s xrev c b (aget_in _ _ _ _ Hs) Hx Hw Hb).
+        * destruct (mhas_binding _ _ _ Hc) as [xs [Hxs Hcx]].
+          assert (Hr : mhas b a ddr = true) by (rewrite <- Cv1; exact H).
+          destruct (mhas_binding _ _ _ Hr) as [xrev [Hx Hw]].
+          apply (Hj j2 a c (or_intror (or_introl eq_refl))). apply (join_complete ca conn ddr _ b xs xrev a c (aget_in _ _ _ _ Hxs) Hx Hw Hcx).
+        * destruct (mhas_binding _ _ _ Hc) as [xs [Hxs Hcx]].
+          assert (Hr : mhas b a ddr = true) by (rewrite <- Cv1; exact H).
+          destruct (mhas_binding _ _ _ Hr) as [xrev [Hx Hw]].
+          apply (Hj j3 a c (or_intror (or_intror eq_refl))). apply (join_complete ca ncm ddr _ b xs xrev a c (aget_in _ _ _ _ Hxs) Hx Hw Hcx).
+  Qed.
+End LoopClosure.
